@@ -108,6 +108,18 @@ def guard_family():
                 if with_else:
                     prog += [{"op": "else"}, assign("<state>y", S(Y, C(1))), yield_(Y, comp="else"), {"op": "endelse"}]
                 out.append(prog + [yield_(Y, comp="after")])
+    # nested conditionals followed by an else branch: else_ negates the flag of the if_ block closed last (the outer one)
+    conds = [CMP("<", Y, C(2)), CMP(">=", Y, C(2)), CMP("<", Y, C(100))]
+    E = {"op": "endif"}
+    for outer in conds:
+        for inner in conds:
+            for inner_else in (False, True):
+                prog = [if_(outer), if_(inner), yield_(Y, comp="inner"), E]
+                if inner_else:
+                    prog += [{"op": "else"}, yield_(Y, comp="innerelse"), {"op": "endelse"}]
+                prog += [assign("<state>y", S(Y, C(10))), E, {"op": "else"}, assign("<state>y", S(Y, C(1))),
+                         yield_(Y, comp="else"), {"op": "endelse"}, yield_(Y, comp="after")]
+                out.append(prog)
     return out
 
 
